@@ -38,6 +38,8 @@ def jobs(tier):
     out.append(("flat2.P65536", "job", dict(shape="flat2", P=65536, K=2, order="reversed")))
     out.append(("nested3.P16384", "job", dict(shape="nested3", P=16384, K=2, order="reversed")))
     out.append(("order2.P32768", "job", dict(shape="order2", P=32768, K=2, order="reversed")))
+    out.append(("seq.flat2.P16384-then-P65536", "job_seq", dict(P1=16384, P2=65536)))
+    out.append(("seq.flat2.P32768-then-P16384", "job_seq", dict(P1=32768, P2=16384)))
     if not q:
         out.append(("nested3.P32768.K3", "job", dict(shape="nested3", P=32768, K=3, order="reversed")))
         out.append(("nested4.P16384", "job", dict(shape="nested4", P=16384, K=2, order="reversed")))
@@ -63,6 +65,22 @@ def job(E, shape, P, K, order, _mutants=None):
             E.witness("empty file", s == 0)
         else:
             E.witnesses.setdefault("empty file", True)
+
+
+def job_seq(E, P1, P2, _mutants=None):
+    """Two aligned creations by one process with different piece lengths: the
+    second must still satisfy the property (no buffer or table may be carried over)."""
+    shape = "flat2"
+    fs, sizes = cr.make_fs(E, shape, 2, P2, order="reversed")
+    E.assume(disj(*[s > 0 for s in sizes.values()]))
+    w = World(fs, mutants=_mutants)
+    try:
+        cr.create(w, "1", path="/data/name", piece_length=P1, progress=0, align=True)
+        t = cr.create(w, "1", path="/data/name", piece_length=P2, progress=0, align=True)
+    except Exception as ex:  # noqa: BLE001
+        E.fail("C15.no-exception", "%s: %s" % (type(ex).__name__, ex))
+        return
+    orc.oracle_aligned_v1(E, t.meta["info"], sizes, P2, shape, "C15.seq")
 
 
 def conc_aligned(info, data, P, shape):
@@ -94,6 +112,20 @@ def conc_aligned(info, data, P, shape):
 
 
 def replay(params, model, notes, workdir, seed):
+    if "P1" in params:
+        shape = "flat2"
+        sizes = cr.concrete_sizes(shape, model)
+        root, data = cr.materialize(workdir, shape, sizes, seed)
+        try:
+            cr.real_create("1", path=root, piece_length=params["P1"], align=True)
+            mods = __import__("sys").modules
+            import io
+            import contextlib
+            with contextlib.redirect_stdout(io.StringIO()):
+                t = mods["torrentfile.torrent"].TorrentFile(path=root, piece_length=params["P2"], align=True, progress=0)
+        except Exception as ex:  # noqa: BLE001
+            return ["C15.no-exception: %s" % ex]
+        return ["C15.seq." + b for b in conc_aligned(t.meta["info"], data, params["P2"], shape)]
     shape, P = params["shape"], params["P"]
     sizes = cr.concrete_sizes(shape, model)
     root, data = cr.materialize(workdir, shape, sizes, seed)
